@@ -102,6 +102,9 @@ def _run_one(job):
         env['SFX_LAMBDA_VARTYPE_RE'] = job[5]
     if len(job) > 6 and job[6]:
         env['SFX_TOUCHES_RE'] = job[6]
+    env.pop('SFX_ONE_INST', None)
+    if len(job) > 7 and job[7]:
+        env['SFX_ONE_INST'] = '1'
     t0 = time.time()
     p = subprocess.run([SFX, out, file_re, name_re, src, '--'] + flags, stdout=subprocess.PIPE,
                        stderr=subprocess.STDOUT, text=True, env=env)
@@ -149,7 +152,7 @@ _MEMO = {}
 
 
 def extract(jobs, workers=16):
-    """jobs: list of (src_path, file_regex, name_regex[, flags[, lambda_vartype_regex[, touches_regex]]]).  Returns list of Unit.
+    """jobs: list of (src_path, file_regex, name_regex[, flags[, lambda_vartype_regex[, touches_regex[, one_instantiation_only]]]]).  Returns list of Unit.
     Facts are written under build/run/<pid>/ and removed after loading."""
     ensure_sfx()
     d = os.path.join(RUN_DIR, str(os.getpid()))
@@ -165,7 +168,7 @@ def extract(jobs, workers=16):
         if _OVERLAY is not None:
             src, extra = _OVERLAY.map(src)
             fl = extra + fl
-        full.append((src, fre, nre, fl, os.path.join(d, 'u%d.json' % n), j[4] if len(j) > 4 else None, j[5] if len(j) > 5 else None))
+        full.append((src, fre, nre, fl, os.path.join(d, 'u%d.json' % n), j[4] if len(j) > 4 else None, j[5] if len(j) > 5 else None, j[6] if len(j) > 6 else None))
     units = []
     # per-process memo: a unit is re-extracted under an overlay only if the overlay could affect it
     # (it edits a header, or this very .cpp)
@@ -176,7 +179,7 @@ def extract(jobs, workers=16):
             if any(not r.endswith('.cpp') for r in _OVERLAY.edits) or job[0].startswith(_OVERLAY.dir):
                 ov = tuple(sorted((r, hashlib.sha1(c.encode()).hexdigest()) for r, c in _OVERLAY.edits.items()))
         keys.append((job[0] if not (_OVERLAY and job[0].startswith(_OVERLAY.dir)) else 'ov', job[1], job[2],
-                     tuple(f for f in job[3] if not (_OVERLAY and _OVERLAY.dir in f)), job[5], job[6], ov))
+                     tuple(f for f in job[3] if not (_OVERLAY and _OVERLAY.dir in f)), job[5], job[6], job[7], ov))
     todo = [(k, job) for k, job in zip(keys, full) if k not in _MEMO]
     try:
         with ThreadPoolExecutor(max_workers=workers) as ex:
